@@ -271,13 +271,17 @@ Proof. exact check_type_conc. Qed.
 Print Assumptions C17_checker_check_type_is_identity_on_concrete_trees_partial.
 
 (* ---- SOUNDNESS for the reference rules, at program level, for a Boolean fragment of the untyped
-   program (Check/InferSound.v): no consts / structs / enums, parameter types concrete, every number
-   literal and range suffixed and in the range of its suffix, no calls / match / struct / enum
-   forms; all 16 binary operators, unary operators, casts, if, blocks, array and tuple literals and
-   accesses, ranges, let / let mut with or without annotation and tuple patterns, assignment through
-   index / tuple accessor chains, for loops.  For such a program: accepted by the (model of the)
-   real checker => the typed program satisfies the reference rules Wt.v, hence (C17_accepted_never_
-   inconsistent) never reaches a typing inconsistency in Sem.v. *)
+   program (Check/InferSound.v, [in_sound_fragment], evaluated per program by the extracted checker in
+   the tie): names of consts / structs / enums / functions pairwise distinct (HashMap keys); consts are
+   literals of exactly their declared type; field, payload, parameter and return types concrete (no
+   const-sized arrays); every number literal and range suffixed and in the range of its suffix;
+   everything else of the language EXCEPT join / join_iter and `[e; N]` with a const size: all
+   operators, casts, if, blocks, arrays, tuples, ranges, struct and enum literals, field access, calls
+   (several functions, pub or not), match with every pattern form, let / let mut with annotations,
+   assignment through all accessors, for.  For such a program: accepted by the (model of the) real
+   checker => the typed program satisfies the reference rules Wt.v, hence (C17_accepted_never_
+   inconsistent) never reaches a typing inconsistency in Sem.v.  Outside: programs with unsuffixed
+   literals (where soundness is FALSE: C17_checker_soundness_refuted). *)
 Theorem C17_checker_sound_on_the_suffixed_fragment_partial : forall intern : list N -> N,
   (forall a b, intern a = intern b -> a = b) ->
   forall fuel P P',
